@@ -875,6 +875,7 @@ func (i valueImporter) importValue(value cadence.Value, expectedType sema.Type) 
 			v.StructType.QualifiedIdentifier,
 			getCompositeTypeFields(v.StructType),
 			getCompositeFieldValues(v),
+			expectedType,
 		)
 	case cadence.Resource:
 		// A resource must not get inserted into a container of a non-resource type,
@@ -892,6 +893,7 @@ func (i valueImporter) importValue(value cadence.Value, expectedType sema.Type) 
 			v.ResourceType.QualifiedIdentifier,
 			getCompositeTypeFields(v.ResourceType),
 			getCompositeFieldValues(v),
+			expectedType,
 		)
 	case cadence.Event:
 		return i.importCompositeValue(
@@ -900,6 +902,7 @@ func (i valueImporter) importValue(value cadence.Value, expectedType sema.Type) 
 			v.EventType.QualifiedIdentifier,
 			getCompositeTypeFields(v.EventType),
 			getCompositeFieldValues(v),
+			expectedType,
 		)
 	case cadence.Enum:
 		return i.importCompositeValue(
@@ -908,6 +911,7 @@ func (i valueImporter) importValue(value cadence.Value, expectedType sema.Type) 
 			v.EnumType.QualifiedIdentifier,
 			getCompositeTypeFields(v.EnumType),
 			getCompositeFieldValues(v),
+			expectedType,
 		)
 	case *cadence.InclusiveRange:
 		return i.importInclusiveRangeValue(v, expectedType)
@@ -1508,6 +1512,7 @@ func (i valueImporter) importCompositeValue(
 	qualifiedIdentifier string,
 	fieldTypes []cadence.Field,
 	fieldValues []cadence.Value,
+	expectedType sema.Type,
 ) (
 	interpreter.Value,
 	error,
@@ -1547,6 +1552,17 @@ func (i valueImporter) importCompositeValue(
 	compositeType, typeErr := inter.GetCompositeType(location, qualifiedIdentifier, typeID)
 	if typeErr != nil {
 		return nil, typeErr
+	}
+
+	// If the expected type is known, the composite must be a subtype of it.
+	// In particular, it must not get inserted into a container with an incompatible element type,
+	// as e.g. the elements of an array of a primitive type like [Address] are assumed to be not containers.
+	if expectedType != nil && !sema.IsSubType(compositeType, expectedType) {
+		return nil, errors.NewDefaultUserError(
+			"cannot import value of type %s as type %s",
+			compositeType.QualifiedString(),
+			expectedType.QualifiedString(),
+		)
 	}
 
 	for fieldIndex := 0; fieldIndex < len(fieldTypes) && fieldIndex < len(fieldValues); fieldIndex++ {
